@@ -19,6 +19,11 @@ CHECKS = {
    text="Exhaustive domain: F:u64, T:u16, Z:u8, N:u16, Al:u8 all symbolic over their whole types (T,Z,Al>0). Two unsat queries per overflow-check setting decide 'valid => accepted and reports the given values' and 'accepted => valid' against an oracle in unbounded integers in multiplication form; sat witnesses guard against vacuity. Counterexamples are replayed against the real crate in dev and release builds.",
    note="Trusted: the MIR executor (vlib/mir.py) and its model of u64::is_multiple_of / u64::div_ceil; the oracle formula; solvers z3 5.1 and cvc5 1.0 (cross-checked when both answer).",
    design="§4 C19"),
+ "C15": dict(level="model_checking", engine="E2 MIR->SMT (z3 5.1 + cvc5) + E1 kani/cbmc",
+   technique="MIR of the look-up functions and of intermediate_tuple/rand/deg symbolically executed into integer SMT (K resp. the internal symbol id symbolic over the whole reachable range, one query pair per Table-2 row, both overflow-check settings); Kani harness over enc_indices with symbolic row and arbitrary in-range tuple",
+   text="Exhaustive domain for the arithmetic: for all 477 rows and every internal symbol id X < 2^24+K' the solver shows no panic path of Tuple[] is reachable (overflow checks on and off), the tuple lies in the stated ranges and equals an RFC transcription; the eight look-up functions return the row of the smallest K' >= K for symbolic K and refuse K > 56403; the constant tables of the current source equal the pinned RFC values and satisfy the primality/size facts (concrete, all rows); Kani shows Enc[] index generation terminates, never panics and yields exactly d+d1 indices < L for every row and every in-range tuple.",
+   note="Trusted: vlib/mir.py executor and its std models; V0..V3 contents/xor are uninterpreted in the SMT queries (contents compared concretely with /verif/oracle/rfc6330_tables.json, which stands in for the printed RFC); Kani's unoptimised-MIR model; per-loop unwinding bounds are enforced by unwinding assertions.",
+   design="§4 C15"),
 }
 
 NOT_APPLICABLE = {
